@@ -292,10 +292,29 @@ def closure(ctx, P, cname):
                                 continue
                             t = T.ty(kvalue, fn)
                             ob2.ok("%s.%s:%s" % (cls.name, m, karg), "%s.%s: %s=%s : %s" % (cls.name, m, karg, unparse(kvalue)[:50], "|".join(sorted(t))))
+                            lit = _literal_result(kvalue)
+                            if lit is not None:
+                                ctx.violation(ob2, "R11.record-type", "%s.%s" % (cls.name, m), "%s=%s" % (karg, unparse(kvalue)[:80]), "record-field-may-be-plain-number",
+                                              "in exact mode the record field %s can come out as the plain number literal %s (through min/max or a conditional) instead of a Decimal: "
+                                              "records then mix number types" % (karg, lit), loc(x))
                             if FLT in t:
                                 ctx.violation(ob2, "R11.record-type", "%s.%s" % (cls.name, m), "%s=%s" % (karg, unparse(kvalue)[:80]), "record-field-may-be-float",
                                               "in exact mode the record field %s is built from `%s`, which may be a binary float (use self.now / increment_time)" % (karg, unparse(kvalue)[:60]), loc(x))
         ctx.floor("record date fields typed", k, 20)
+
+
+def _literal_result(e):
+    """a plain int/float literal that the expression may evaluate to as a whole: directly, as an argument of min/max, or as an arm of a conditional"""
+    if isinstance(e, ast.Constant) and isinstance(e.value, (int, float)) and not isinstance(e.value, bool):
+        return repr(e.value)
+    if isinstance(e, ast.Call) and isinstance(e.func, ast.Name) and e.func.id in ("min", "max"):
+        for a in e.args:
+            r = _literal_result(a)
+            if r is not None:
+                return r
+    if isinstance(e, ast.IfExp):
+        return _literal_result(e.body) or _literal_result(e.orelse)
+    return None
 
 
 def overrides(ctx, P):
@@ -362,7 +381,8 @@ def selection(ctx, P):
     okk = False
     for x in ast.walk(fn):
         if isinstance(x, ast.If) and unparse(x.test) == "exact":
-            s = "\n".join(unparse(y) for y in x.body).replace(" ", "")
+            # the three settings must be direct statements of the `if exact:` body (not under a further condition)
+            s = "\n".join(unparse(y) for y in x.body if not isinstance(y, (ast.If, ast.For, ast.While, ast.Try))).replace(" ", "")
             okk = ("self.NodeTypes=[ExactNodefor_inrange(network.number_of_nodes)]" in s and "self.ArrivalNodeType=ExactArrivalNode" in s and "getcontext().prec=exact" in s)
     ob.ok("Simulation.__init__:exact")
     if not okk:
